@@ -82,10 +82,14 @@ theorem ukfCorrect_safe (additive : Bool) (I : Layout) (K : Nat) (C : Layout) (c
     | false =>
       simp only [Bool.false_eq_true, if_false] at hrr ⊢
       obtain ⟨c1, c2⟩ := withNoise_cross I M.rr hIn
+      have hst : (⟨K, I, I.dim, I.dcov, I.meanS K, I.covS K, K⟩ : GMStore).wf := by simp [GMStore.wf, Layout.meanS, Layout.covS]
+      have hau := gmAugment_ok ⟨K, I, I.dim, I.dcov, I.meanS K, I.covS K, K⟩ ⟨M.rr, M.rr⟩ hst hK
+      have haL : (gmAugment ⟨K, I, I.dim, I.dcov, I.meanS K, I.covS K, K⟩ ⟨M.rr, M.rr⟩).val.1.L = I.withNoise M.rr := by
+        rw [hau.2.2.2.1]; simp
       have hw : utWeightSize M.Lin.dcov = 2 * (I.withNoise M.rr).dcov + 1 := by rw [c2, ← hnl, hrr]; simp [utWeightSize]
       have hu := utMeasGeneric_safe (I.withNoise M.rr) K _ M (by omega) hw hOn hp hdc
       have huv := utMeasGeneric_val (I.withNoise M.rr) K (utWeightSize M.Lin.dcov) M
-      simp only [hu, huv, true_and]
+      simp only [safe_bind, val_bind, hau.1, haL, hu, huv, true_and]
       cases hpv : M.pvalid with
       | false => simp [UTRes.failed, corrCopy]
       | true =>
